@@ -53,6 +53,7 @@ SPECS["C20"] = dict(
 )
 
 SPECS["C01"] = dict(
+    floors={"retransmission": 0.5, "duplicate_delivered": 0.2, "read_smaller_than_message": 0.1},
     title="reliable ordered stream: reader sees a prefix of what was written",
     level="exploration",
     technique="rapid-generated configurations x fault scripts x app scripts; reference model = log of accepted writes, compared at every read",
@@ -144,6 +145,7 @@ SPECS["C12"] = dict(
 )
 
 SPECS["C09"] = dict(
+    floors={"retransmission_on_wire": (0.5, "fec_on"), "rs_parity_recomputed": (0.5, "fec_on")},
     title="datagrams follow the documented frame layout; nonces never repeat",
     level="exploration",
     technique="independent wire decoder (std-lib CFB/CRC32/GCM, own RS re-encode, own segment parser) observing every datagram of rapid-generated session histories",
@@ -267,6 +269,7 @@ SPECS["C06"] = dict(
 )
 
 SPECS["C15"] = dict(
+    floors={"closed_mid_transfer": 0.2, "closed_with_unaccepted_sessions": 0.05},
     title="Close releases goroutines and callbacks; pooled buffers have one owner",
     level="exploration",
     technique="rapid-generated close scripts (point in history x permutation of Close calls x gaps x never-accepted peers) in a synctest bubble with a goroutine census and scheduler-callback census after 10 virtual minutes; buffer-pool sanitizer (quarantine + poison, LIFO reuse) under generated lossy FEC traffic with content and wire oracles",
@@ -282,6 +285,7 @@ SPECS["C15"] = dict(
 )
 
 SPECS["C19"] = dict(
+    floors={"oob_inside_fec_group": 0.2, "oob_lost": 0.2, "oversize_refused": 0.3},
     title="out-of-band messages: intact or absent, never disturb the stream",
     level="exploration",
     technique="rapid-generated OOB call patterns (boundary lengths, bursts beyond the queue depth, handler set/replaced/cleared) interleaved with generated lossy stream traffic; tagged-payload oracle at the handlers, independent wire decoder (ids, RS parity, MTU) on every datagram, stream completion bound",
@@ -297,6 +301,7 @@ SPECS["C19"] = dict(
 )
 
 SPECS["C11"] = dict(
+    floors={"ge3_concurrent_streams": 0.3, "foreign_datagram_past_integrity": 0.3},
     title="sessions on one socket are isolated; one Accept per new peer",
     level="exploration",
     technique="rapid-generated multi-peer histories (1-8 clients, shared IPs, per-peer fault scripts, reconnects with a new conversation, late accept) with address/conv-keyed payload streams and injected foreign datagrams (replays from strangers, forged conv from the right address, third-address datagrams at dialled sessions); accept-count, content, digest and stall oracles",
@@ -311,6 +316,7 @@ SPECS["C11"] = dict(
 )
 
 SPECS["C03"] = dict(
+    floors={"zero_window_advertised": 0.3, "control_datagram_dropped": 0.3, "window_probe_sent": 0.2},
     title="a stalled reader throttles the sender and transfer resumes afterwards",
     level="fault_enumeration",
     technique="rapid-generated reader pause schedules x receive windows x time windows in which every WASK/WINS/ack-only datagram is dropped (classified by the independent decoder) x ordinary loss; window-discipline invariants at every step, bounded-liveness completion in virtual time",
